@@ -81,6 +81,10 @@ func (r *Registry) Add(soyfile *ast.SoyFileNode) error {
 		}
 		tn.Body.Nodes = tn.Body.Nodes[len(headerParams):]
 
+		if _, ok := r.sourceByTemplateName[tn.Name]; ok {
+			return fmt.Errorf("template %s is defined more than once (in %s and %s)",
+				tn.Name, r.fileByTemplateName[tn.Name], soyfile.Name)
+		}
 		r.Templates = append(r.Templates, Template{sdn, tn, ns})
 		r.sourceByTemplateName[tn.Name] = soyfile.Text
 		r.fileByTemplateName[tn.Name] = soyfile.Name
